@@ -29,7 +29,9 @@ RULE = ("cases: dom = (cone with integer/dyadic rows, dyadic-lattice pair a,b) w
         "exactly 90) + random theta, with probe directions; ctor3d = the three kinds; ice = K in 3..64 x theta; "
         "eq = OrderingCone.__eq__ pairs; comp = ComponentwiseOrder(dim 2..5); dtype = cone matrix handed to the real "
         "constructor as int64/int32 array, nested int list, float32 or Fortran-order float64 array with fractional "
-        "quarter-lattice vectors (single, list, batched, float32 inputs). non-trivial: dom/batch = not all "
+        "quarter-lattice vectors (single, list, batched, float32 inputs); extreme = exactly representable dyadic "
+        "pairs: ordinary differences (2^-10..1) at common offsets 2^10..2^20, tiny differences 2^-20..2^-40 near the "
+        "origin, translation and scaling (2^+-30, 2^+-20) laws on the real code, float/int/list/float32 W. non-trivial: dom/batch = not all "
         "facet values strictly of one sign or a tie present; laws = at least one implication premise true; "
         "ctor* = always (distinct parameters); distinct by the full case")
 ASSUMPTIONS = [
@@ -277,6 +279,57 @@ def _gen_dtype(rng, cname, mode):
     return {"kind": "dtype", "cone": cname, "W": W, "mode": mode, "A": A, "B": B}
 
 
+EXTREME_SHAPES = ["offset-mixed", "offset-facet", "offset-cone", "tiny", "tiny-facet", "tiny-mixed", "swap"]
+
+
+def _pow2(e):
+    return float(2.0 ** e)
+
+
+def _gen_extreme(rng, cname, shape):
+    """a, b near the origin with difference d; t a large common offset; sexp the scaling exponent"""
+    W, pointed = ALL_CONES[cname]
+    m = len(W[0])
+    modes = [mo for mo in ("float64F", "int64", "pylist", "float32") if _mode_ok(mo, W)]
+    mode = rng.choice(["float64"] * 2 + modes)
+    e_off = rng.randint(10, 20)
+    if rng.random() < 0.5:
+        t = [_pow2(e_off)] * m
+    else:
+        t = [rng.choice([-1, 1]) * rng.randint(1, 7) * _pow2(rng.randint(10, e_off)) for _ in range(m)]
+        t = [x if abs(x) <= _pow2(20) else math.copysign(_pow2(20), x) for x in t]
+    if shape == "offset-mixed":       # ordinary-size coordinates 2^-10 .. 1 of mixed sign
+        d = [rng.choice([-1, 1, 1]) * rng.randint(0, 3) * _pow2(-rng.randint(0, 10)) for _ in range(m)]
+    elif shape == "offset-facet":     # on a facet, scaled down to 2^-10 .. 2^-4
+        d = [x * _pow2(-rng.randint(4, 10)) for x in _on_facet(rng, W, m)]
+    elif shape == "offset-cone":      # cone element plus one small coordinate pushed the other way
+        d = [x * _pow2(-rng.randint(0, 3)) for x in _cone_element(rng, W, m)]
+        i = rng.randrange(m)
+        d[i] = d[i] - rng.choice([1, 1, -1]) * _pow2(-rng.randint(6, 10))
+    elif shape == "tiny":             # all coordinates k * 2^-e, e in 20..40
+        e = rng.randint(20, 40)
+        d = [rng.randint(-4, 4) * _pow2(-e) for _ in range(m)]
+    elif shape == "tiny-facet":
+        e = rng.randint(20, 36)
+        d = [x * _pow2(-e) for x in _on_facet(rng, W, m)]
+    elif shape == "tiny-mixed":       # ordinary cone element with one tiny coordinate perturbation
+        d = _cone_element(rng, W, m)
+        i = rng.randrange(m)
+        d[i] = d[i] - rng.choice([1, 1, -1]) * _pow2(-rng.randint(20, 40))
+    else:                             # "swap": +delta on one coordinate, -delta on another (antisymmetry probe)
+        d = [0.0] * m
+        de = _pow2(-rng.randint(4, 10))
+        if m >= 2:
+            i, j = rng.sample(range(m), 2)
+            d[i], d[j] = de, -de
+        else:
+            d[0] = -de
+    a = [rng.randint(-8, 8) / 4.0 for _ in range(m)] if rng.random() < 0.7 else [0.0] * m
+    b = [x - y for x, y in zip(a, d)]
+    return {"kind": "extreme", "cone": cname, "W": W, "pointed": pointed, "mode": mode, "a": a, "b": b, "t": t,
+            "sexp": rng.choice([30, -30, 30, 20, -20]), "shape": shape}
+
+
 def _probe_offsets(rng, n=6):
     return [rng.uniform(-math.pi, math.pi) for _ in range(n)]
 
@@ -341,6 +394,14 @@ def gen(ctx):
         cname = rng.choice(names)
         modes = [m for m in DTYPE_MODES if _mode_ok(m, ALL_CONES[cname][0])]
         yield _gen_dtype(rng, cname, rng.choice(modes))
+    # ---- extreme magnitudes (all exactly representable dyadics): ordinary differences at large common offsets,
+    #      tiny differences near the origin, translation by |t| <= 2^20 and scaling by 2^+-30 on the real code
+    for cname in names:
+        for shape in EXTREME_SHAPES:
+            if mine():
+                yield _gen_extreme(rng, cname, shape)
+    for _ in range(ctx.n(500, 40000)):
+        yield _gen_extreme(rng, rng.choice(names), rng.choice(EXTREME_SHAPES))
     # ---- OrderingCone.__eq__
     for _ in range(ctx.n(40, 1500)):
         cname = rng.choice(names)
@@ -902,7 +963,81 @@ def _run_dtype(ctx, case):
     ctx.case_done(case, frac, canon=["dtype", mode, W, case["A"], case["B"]])
 
 
-_RUN = {"dtype": _run_dtype, "dom": _run_dom, "batch": _run_batch, "laws": _run_laws, "ctor2d": _run_ctor2d, "ctor3d": _run_ctor3d,
+def _exact_vec_op(x, y, op):
+    """float result of x op y (elementwise) and whether every coordinate is exact"""
+    r = op(np.array(x, dtype=float), np.array(y, dtype=float))
+    ok = all(op(core.frac(u), core.frac(v)) == core.frac(w) for u, v, w in zip(x, y, r.tolist()))
+    return r, ok
+
+
+def _run_extreme(ctx, case):
+    import operator
+
+    W, mode = case["W"], case["mode"]
+    m = len(W[0])
+    ctx.count("extreme_shape_" + case.get("shape", "?"))
+    order = real_order(W) if mode == "float64" else _order_with_dtype(mode, W)
+    cone = order.ordering_cone
+    ws = core.qmat(np.asarray(cone.W).tolist())
+    a, b, t = (np.array(case[k], dtype=float) for k in ("a", "b", "t"))
+    s = float(2.0 ** int(case["sexp"]))
+    d, ok_d = _exact_vec_op(a, b, operator.sub)
+    at, ok_at = _exact_vec_op(a, t, operator.add)
+    bt, ok_bt = _exact_vec_op(b, t, operator.add)
+    dt, ok_dt = _exact_vec_op(at, bt, operator.sub)
+    # every float operation on the code path must be exact for equality to be demanded
+    vals = _facet_vals(W, d.tolist())
+    exact_prod = all(core.frac(float(v)) == v and core.frac(float(v * core.frac(s))) == v * core.frac(s) for v in vals)
+    if not (ok_d and ok_at and ok_bt and ok_dt and exact_prod and np.array_equal(dt, d)):
+        ctx.count("extreme_not_exact_skipped")
+        ctx.case_done(case, False)
+        return
+    exp = _ask(ctx, "dom", ws, core.qvec(a), core.qvec(b)) == "1"
+    exp_rev = _ask(ctx, "dom", ws, core.qvec(b), core.qvec(a)) == "1"
+    # the model on the translated / scaled data (exact rationals): must agree with itself (theorems), checked anyway
+    if (_ask(ctx, "dom", ws, core.qvec(at), core.qvec(bt)) == "1") != exp or \
+            (_ask(ctx, "dom", ws, core.qvec(s * a), core.qvec(s * b)) == "1") != exp:
+        raise RuntimeError("Lean model: dominates not invariant under exact translation / scaling")
+    ctx.count("extreme_" + ("true" if exp else "false"))
+    try:
+        got = [
+            ("dominates(a, b)", _blist(order.dominates(a.copy(), b.copy())), [exp], "extreme-value"),
+            ("is_inside(a - b)", _blist(cone.is_inside(d.copy())), [exp], "extreme-value"),
+            ("dominates(a + t, b + t)  [translation by the large common offset t]",
+             _blist(order.dominates(at.copy(), bt.copy())), [exp], "extreme-translation"),
+            ("dominates(s*a, s*b)  [scaling by s = 2^%d]" % int(case["sexp"]),
+             _blist(order.dominates(s * a, s * b)), [exp], "extreme-scaling"),
+            ("dominates(s*(a+t), s*(b+t))", _blist(order.dominates(s * at, s * bt)), [exp], "extreme-scaling"),
+            ("dominates(b + t, a + t)", _blist(order.dominates(bt.copy(), at.copy())), [exp_rev], "extreme-translation"),
+            ("batched dominates([a, a+t, s*a, b+t], [b, b+t, s*b, a+t])",
+             _blist(order.dominates(np.array([a, at, s * a, bt]), np.array([b, bt, s * b, at]))),
+             [exp, exp, exp, exp_rev], "extreme-batch"),
+            ("dominates(a+t, b+t) with list-built float arrays", _blist(order.dominates(np.array(at.tolist()),
+                                                                                        np.array(bt.tolist()))), [exp],
+             "extreme-translation"),
+        ]
+    except Exception as e:
+        ctx.violation("extreme-crash:" + core.exc_key(e), f"dominates raised {type(e).__name__}: {e}", case)
+        return
+    for what, g, want, key in got:
+        if g != want:
+            ctx.violation(key, f"{what} = {g} but the facet inequalities W(a-b) >= 0 give {want} "
+                          f"(a - b = {d.tolist()}, exactly the same difference after translation)", case,
+                          detail={"call": what, "impl": g, "model": want, "a+t": at.tolist(), "b+t": bt.tolist(),
+                                  "facet_values": [str(v) for v in vals]})
+            return
+    pointed = case.get("pointed")
+    if pointed is None:
+        pointed = _rank_q(W) == m
+    if pointed and not np.array_equal(a, b):
+        both = _blist(order.dominates(at.copy(), bt.copy()))[0] and _blist(order.dominates(bt.copy(), at.copy()))[0]
+        if both:
+            ctx.violation("extreme-antisym", "pointed cone: a+t and b+t dominate each other but differ", case)
+            return
+    ctx.case_done(case, bool(np.any(d != 0)), canon=["extreme", mode, W, case["a"], case["b"], case["t"], case["sexp"]])
+
+
+_RUN = {"extreme": _run_extreme, "dtype": _run_dtype, "dom": _run_dom, "batch": _run_batch, "laws": _run_laws, "ctor2d": _run_ctor2d, "ctor3d": _run_ctor3d,
         "ice": _run_ice, "eq": _run_eq, "comp": _run_comp}
 
 
